@@ -1,6 +1,7 @@
 use crate::mon::Ctx;
 
 pub mod c01;
+pub mod c02;
 pub mod c03;
 pub mod c04;
 pub mod c05;
@@ -11,10 +12,12 @@ pub mod c09;
 pub mod c13;
 pub mod c14;
 pub mod c17;
+pub mod c18;
 
 pub fn run(ctx: &mut Ctx) -> bool {
     match ctx.prop.as_str() {
         "C01" => c01::run(ctx),
+        "C02" => c02::run(ctx),
         "C03" => c03::run(ctx),
         "C04" => c04::run(ctx),
         "C05" => c05::run(ctx),
@@ -25,6 +28,7 @@ pub fn run(ctx: &mut Ctx) -> bool {
         "C13" => c13::run(ctx),
         "C14" => c14::run(ctx),
         "C17" => c17::run(ctx),
+        "C18" => c18::run(ctx),
         _ => return false,
     }
     true
